@@ -7,6 +7,7 @@ import (
 	"time"
 
 	"github.com/celestiaorg/go-header/p2p"
+	"github.com/celestiaorg/go-header/store"
 	p2p_pb "github.com/celestiaorg/go-header/p2p/pb"
 	"github.com/celestiaorg/go-libp2p-messenger/serde"
 	ds "github.com/ipfs/go-datastore"
@@ -100,6 +101,11 @@ func (p *speer) handle(s network.Stream) {
 			return
 		}
 	}
+	if pl.end == "stall" { // part of the answer was sent, then the peer goes silent past the request timeout
+		time.Sleep(reqTimeout + time.Second)
+		_ = s.Reset()
+		return
+	}
 	if pl.end == "reset" {
 		_ = s.Reset()
 		return
@@ -152,4 +158,12 @@ func newExchange(t *testing.T, host libhost.Host, trusted []peer.ID, chunk uint6
 		t.Fatal(err)
 	}
 	return ex
+}
+
+func newServer(h libhost.Host, st *store.Store[*vh.Header]) (*p2p.ExchangeServer[*vh.Header], error) {
+	srv, err := p2p.NewExchangeServer[*vh.Header](h, st, p2p.WithNetworkID[p2p.ServerParameters](networkID))
+	if err != nil {
+		return nil, err
+	}
+	return srv, srv.Start(context.Background())
 }
